@@ -108,6 +108,15 @@ def exact_stream(ctx):
             lr = Fraction(rng.choice([1, 3]), 2 ** rng.randrange(10, 26))
             kl = Fraction(rng.choice([1, 3, 5]), 2 ** rng.randrange(24, 80))
         p = KFACPreconditioner(m, kl_clip=float(kl), lr=float(lr))
+        if rng.random() < 0.3:
+            # the learning rate (and the clip) in force were set by the real LambdaParamScheduler after construction
+            from kfac.scheduler import LambdaParamScheduler
+            f_lr, f_kl = Fraction(rng.choice([1, 2, 4]), rng.choice([1, 2, 4, 8])), Fraction(rng.choice([1, 1, 2]), rng.choice([1, 4]))
+            sch = LambdaParamScheduler(p, lr_lambda=lambda st: float(f_lr), kl_clip_lambda=lambda st: float(f_kl))
+            for _ in range(rng.randrange(1, 3)):
+                sch.step()
+                lr, kl = lr * f_lr, kl * f_kl
+            ctx.count('exact-nu-after-scheduler')
         tot = Fraction(0)
         # sometimes one layer's gradient is exactly zero (an auxiliary head whose loss weight is 0, dead units): its inner
         # product contributes 0, the scalar is still the one of the whole sum
@@ -234,6 +243,49 @@ def external_lr_stream(ctx):
         ctx.count('external-lr')
 
 
+def tied_stream(ctx):
+    """two registered layers sharing one weight Parameter (weight tying): with kl_clip=None the gradients are the unscaled
+    preconditioned ones — exactly what a clip that never binds (nu = 1) leaves"""
+    from kfac.preconditioner import KFACPreconditioner
+    rng = ctx.rng
+
+    class Tied(torch.nn.Module):
+        def __init__(self):
+            super().__init__()
+            self.enc = torch.nn.Linear(4, 4)
+            self.dec = torch.nn.Linear(4, 4, bias=False)
+            self.dec.weight = self.enc.weight
+            self.head = torch.nn.Linear(4, 2)
+
+        def forward(self, x):
+            return self.head(torch.tanh(self.dec(torch.tanh(self.enc(x)))))
+    for method in ('eigen', 'inverse'):
+        for _ in range(ctx.budget(2, 10)):
+            seed = rng.randrange(10**6)
+            case = {'stream': 'tied-weights', 'method': method, 'seed': seed}
+            outs = []
+            try:
+                for kl in (None, 1e30):
+                    torch.manual_seed(seed)
+                    m = Tied().double()
+                    p = KFACPreconditioner(m, kl_clip=kl, compute_method=method, damping=0.01, lr=0.1)
+                    for step in range(2):
+                        x = torch.randn(8, 4, dtype=torch.float64)
+                        m.zero_grad()
+                        m(x).pow(2).mean().backward()
+                        p.step()
+                    outs.append([q.grad.clone() for q in m.parameters()])
+            except Exception as e:  # noqa: BLE001
+                ctx.fail(f'tied-weight model raised {type(e).__name__}: {e}', case, 'tied-raised')
+                continue
+            worst = max(kfacsim.relerr(a, b) for a, b in zip(*outs))
+            if worst > 1e-9:
+                ctx.fail(f'kl_clip=None gives gradients that differ (relative {worst:.2e}) from those of a clip that never binds (nu = 1) '
+                         'on a model with tied weights', case, 'none-is-not-nu-1')
+            ctx.evaluations += 1
+            ctx.count('tied-weights')
+
+
 def ctor_stream(ctx):
     from kfac.preconditioner import KFACPreconditioner
     for method in ('eigen', 'inverse'):
@@ -268,6 +320,7 @@ def neox_stream(ctx):
 def run(ctx):
     neox_stream(ctx)
     ctor_stream(ctx)
+    tied_stream(ctx)
     exact_stream(ctx)
     half_stream(ctx)
     external_lr_stream(ctx)
